@@ -111,6 +111,7 @@ func historyQueryBuilder(field string, options HistoryQueryOptions) (string, str
 	// Only select the txindex. Only works with entry_hash field
 	if options.UseTxIndex && field == "entry_hash" {
 		where += fmt.Sprintf(" AND tx.tx_index = %d", options.TxIndex)
+		whereCount += fmt.Sprintf(" AND tx.tx_index = %d", options.TxIndex)
 	}
 
 	if options.Asset != "" {
